@@ -1237,6 +1237,11 @@ def translate(ctx):
         stats_util.translate_thresholds(ctx)
     except stats_util.TranslateError as e:
         ctx.broken.append('translator stats_utils.py: %s' % e)
+    try:
+        stats_util.translate_buffer_bits(ctx)
+    except stats_util.TranslateError as e:
+        ctx.broken.append('translator precompute_from_anndata.py (integer '
+                          'width of the worker buffers): %s' % e)
 
 
 def run(ctx):
